@@ -118,6 +118,12 @@ func (q *rpcQueue) Pop(ctx context.Context) (*RPC, error) {
 		// Wake up all the waiting routines. The only routine that correponds
 		// to this Pop call will return from the function. Note that this can
 		// be expensive, if there are too many waiting routines.
+		//
+		// The broadcast must happen under the queue lock: Pop checks the
+		// context and then waits while holding it, so without the lock a
+		// cancellation landing between the check and the wait is lost.
+		q.queueMu.Lock()
+		defer q.queueMu.Unlock()
 		q.dataAvailable.Broadcast()
 	})
 	defer unregisterAfterFunc()
